@@ -321,6 +321,16 @@ def run_case(acc, seed, layout, mode, hold, pos):
             else:
                 case.green()
         if hold == 'declined':
+            if rng.random() < 0.5:
+                # the clean-up push is refused for the whole retry window
+                # (pushes work again afterwards): the declined PR must not
+                # make any progress in that job either
+                op0 = w.shim.nops()
+                w.shim.set(fail_from=op0 + 1, fail_until=op0 + 6)
+                case.under_hold = True
+                case.run('pr', pid)
+                w.shim.clear()
+                acc.count('c12_declined_cleanup_under_push_fault')
             # the first evaluation after the decline cleans up; that is the
             # documented behaviour, not progress
             case.under_hold = False
